@@ -21,7 +21,7 @@ import (
 )
 
 type c16Op struct {
-	Op    string   `json:"op"` // connect | sub | unsub | drop | admin | pub
+	Op    string   `json:"op"` // connect | sub | unsub | drop | admin | extput | pub
 	K     int      `json:"k"`  // connection label (connect defines it)
 	Cid   string   `json:"cid,omitempty"`
 	Clean bool     `json:"clean,omitempty"`
@@ -170,7 +170,7 @@ func c16Run(in c16In) (obs c16Obs) {
 		}
 	}()
 	env := c15NewEnv(false, nil)
-	defer env.close()
+	defer env.closeInto(&obs.Bad)
 	conns := []*c16Conn{}
 	find := func(k int) *c16Conn {
 		for _, c := range conns {
@@ -182,11 +182,15 @@ func c16Run(in c16In) (obs c16Obs) {
 	}
 	settle := func(st *c16Step) {
 		if !c15Quiesce(env.open) {
-			obs.Bad = append(obs.Bad, "no quiescence")
+			obs.Bad = append(obs.Bad, "hung: no quiescence")
 		}
 	}
 	npub := 0
 	for _, op := range in.Ops {
+		if c15Stuck() {
+			obs.Bad = append(obs.Bad, "hung: case abandoned")
+			break
+		}
 		st := c16Step{Recv: []int{}, Filters: []string{}, Match: []bool{}}
 		c := find(op.K)
 		switch op.Op {
@@ -257,6 +261,30 @@ func c16Run(in c16In) (obs c16Obs) {
 			if code := env.httpDeleteSession(op.Cid); code != 200 {
 				obs.Bad = append(obs.Bad, fmt.Sprintf("admin delete: http %d", code))
 			}
+		case "extput":
+			// another broker instance on the same storage writes the persistent session of this id;
+			// only meaningful while no connection of the id is open here
+			busy := op.Cid == ""
+			for _, cc := range conns {
+				if cc.cli.cid == op.Cid && !cc.gone {
+					busy = true
+				}
+			}
+			if busy {
+				st.Skip = true
+				break
+			}
+			tp := map[string]int{}
+			for _, sb := range op.Subs {
+				tp[sb.F] = sb.Q
+			}
+			ss := &Session{info: &SessionInfo{EGName: "verif", Name: "verif", Topics: tp, ClientID: op.Cid, CleanFlag: false}}
+			str, err := ss.encode()
+			if err != nil {
+				st.Skip = true
+				break
+			}
+			env.store.put(sessionStoreKey(op.Cid), str)
 		case "pub":
 			st.Filters = append(st.Filters, c16Filters...)
 			for _, f := range c16Filters {
@@ -346,29 +374,70 @@ func c16Gen(r *vfRand, adv bool) c16In {
 		in.Ops = append(in.Ops, c16Op{Op: "pub", Topic: "x/y"})
 		return in
 	}
-	if r.Chance(1, 5) {
-		// drop and come back: the stored session must give the subscriptions back (or not, if clean)
+	unsubFs := func() []string {
+		// sometimes several filters in one UNSUBSCRIBE, a never-subscribed one first
+		fs := []string{}
+		if r.Chance(1, 2) {
+			fs = append(fs, r.PickStr("zz/never", "a/b/never", "+/never"))
+		}
+		fs = append(fs, c16Filters[r.Intn(len(c16Filters))])
+		if r.Chance(1, 3) {
+			fs = append(fs, c16Filters[r.Intn(len(c16Filters))])
+		}
+		return fs
+	}
+	pubAll := func() {
+		for _, t := range c16Topics {
+			in.Ops = append(in.Ops, c16Op{Op: "pub", Topic: t})
+		}
+	}
+	switch shape := r.Intn(10); {
+	case shape < 2:
+		// drop and come back: the stored session must give exactly the live set back (or nothing, if clean);
+		// in between the session may be deleted through the admin endpoint or rewritten by another broker instance
 		c1, c2 := r.Chance(1, 4), r.Chance(1, 4)
 		connect("A", c1)
 		in.Ops = append(in.Ops, c16Op{Op: "sub", K: 0, Subs: subs()})
 		if r.Bool() {
 			in.Ops = append(in.Ops, c16Op{Op: "sub", K: 0, Subs: subs()})
 		}
-		if r.Chance(1, 3) {
-			in.Ops = append(in.Ops, c16Op{Op: "unsub", K: 0, Fs: []string{c16Filters[r.Intn(len(c16Filters))]}})
+		if r.Chance(1, 2) {
+			in.Ops = append(in.Ops, c16Op{Op: "unsub", K: 0, Fs: unsubFs()})
 		}
 		drop(0, r.PickStr("close", "disconnect"))
-		if r.Chance(1, 4) {
+		switch r.Intn(4) {
+		case 0:
+			in.Ops = append(in.Ops, c16Op{Op: "admin", Cid: "A"})
+		case 1:
+			in.Ops = append(in.Ops, c16Op{Op: "extput", Cid: "A", Subs: subs()})
+		case 2:
 			in.Ops = append(in.Ops, c16Op{Op: "pub", Topic: "a/b"})
 		}
 		connect("A", c2)
-		for _, t := range c16Topics {
-			in.Ops = append(in.Ops, c16Op{Op: "pub", Topic: t})
-		}
+		pubAll()
 		if r.Bool() {
 			in.Ops = append(in.Ops, c16Op{Op: "sub", K: 1, Subs: subs()})
 			in.Ops = append(in.Ops, c16Op{Op: "pub", Topic: "a/b"})
 		}
+		return in
+	case shape < 3:
+		// the broker closes the connection first (admin delete, or takeover), the connection ends later,
+		// then the id comes back: nothing of the old subscriptions may route to it if it is clean
+		connect("A", r.Chance(1, 3))
+		in.Ops = append(in.Ops, c16Op{Op: "sub", K: 0, Subs: subs()})
+		if r.Bool() {
+			in.Ops = append(in.Ops, c16Op{Op: "admin", Cid: "A"})
+			drop(0, r.PickStr("poke", "close", "disconnect"))
+		} else {
+			connect("A", r.Bool())
+			drop(0, r.PickStr("poke", "close"))
+			drop(0, r.PickStr("close", "disconnect"))
+		}
+		if r.Chance(1, 3) {
+			in.Ops = append(in.Ops, c16Op{Op: "pub", Topic: "a/b"})
+		}
+		connect("A", r.Chance(2, 3))
+		pubAll()
 		return in
 	}
 	connect("A", r.Bool())
@@ -380,11 +449,15 @@ func c16Gen(r *vfRand, adv bool) c16In {
 		case k < 8 && len(open) > 0:
 			in.Ops = append(in.Ops, c16Op{Op: "sub", K: open[r.Intn(len(open))], Subs: subs()})
 		case k < 9 && len(open) > 0:
-			in.Ops = append(in.Ops, c16Op{Op: "unsub", K: open[r.Intn(len(open))], Fs: []string{c16Filters[r.Intn(len(c16Filters))]}})
+			in.Ops = append(in.Ops, c16Op{Op: "unsub", K: open[r.Intn(len(open))], Fs: unsubFs()})
 		case k < 13 && len(open) > 0:
 			drop(r.Intn(len(open)), r.PickStr("close", "close", "disconnect", "poke"))
 		case k < 14:
-			in.Ops = append(in.Ops, c16Op{Op: "admin", Cid: pickCid()})
+			if r.Chance(1, 3) {
+				in.Ops = append(in.Ops, c16Op{Op: "extput", Cid: pickCid(), Subs: subs()})
+			} else {
+				in.Ops = append(in.Ops, c16Op{Op: "admin", Cid: pickCid()})
+			}
 		default:
 			in.Ops = append(in.Ops, c16Op{Op: "pub", Topic: c16Topics[r.Intn(len(c16Topics))]})
 		}
